@@ -732,6 +732,26 @@ MODELS = {
     'num_traits::Float::is_nan': _float_fn('is_nan'),
     'num_traits::Float::is_finite': _float_fn('is_finite'),
     'num_traits::Float::is_infinite': _float_fn('is_infinite'),
+    'num_traits::Float::epsilon': lambda m, st, fr, c, a, d, t: ('call', 'epsilon', ()),
+    'num_traits::Float::min_positive_value': lambda m, st, fr, c, a, d, t: ('call', 'min_positive_value', ()),
+    'num_traits::Float::max_value': lambda m, st, fr, c, a, d, t: ('call', 'float_max_value', ()),
+    'num_traits::Float::min_value': lambda m, st, fr, c, a, d, t: ('call', 'float_min_value', ()),
+    'num_traits::Float::ceil': _float_fn('ceil'),
+    'num_traits::Float::trunc': _float_fn('trunc'),
+    'num_traits::Float::signum': _float_fn('signum'),
+    'num_traits::Float::powf': _float_fn('powf'),
+    'num_traits::Float::max': _float_fn('fmax'),
+    'num_traits::Float::min': _float_fn('fmin'),
+    'num_traits::Float::mul_add': lambda m, st, fr, c, a, d, t: op('add', op('mul', m.deref(st, a[0]), m.deref(st, a[1])), m.deref(st, a[2])),
+    'core::f64::round_ties_even': _float_fn('round_ties_even'),
+    'core::f64::ceil': _float_fn('ceil'),
+    'core::f64::trunc': _float_fn('trunc'),
+    'core::f64::signum': _float_fn('signum'),
+    'core::f64::powf': _float_fn('powf'),
+    'core::f64::mul_add': lambda m, st, fr, c, a, d, t: op('add', op('mul', a[0], a[1]), a[2]),
+    'core::f64::clamp': lambda m, st, fr, c, a, d, t: op('fmin', op('fmax', a[0], a[1]), a[2]),
+    'core::f32::sqrt': _float_fn('sqrt'),
+    'core::f32::abs': _float_fn('abs'),
     'num_traits::Float::infinity': _const_flt('inf'),
     'num_traits::Float::neg_infinity': _const_flt('-inf'),
     'num_traits::Float::nan': _const_flt('nan'),
